@@ -91,13 +91,97 @@ pub fn c02(r: &mut Rng, sz: &Sizes, out: &mut Vec<String>) {
     }
 }
 
+/// Documents for the single-document inference ops, each in a random formatting style.
+fn docs(r: &mut Rng, sz: &Sizes) -> Vec<J> {
+    let mut out = vec![
+        J::Arr(vec![]),
+        J::Arr(vec![J::Arr(vec![])]),
+        J::Obj(vec![("a".into(), J::Arr(vec![]))]),
+        J::Obj(vec![]),
+        J::Arr(vec![J::Obj(vec![]), J::Obj(vec![])]),
+        J::Arr(vec![J::Obj(vec![]), J::Obj(vec![("a".into(), J::Null)])]),
+        J::Arr(vec![J::Null, J::Null]),
+        J::Arr(vec![J::Arr(vec![]), J::Num("1".into())]),
+    ];
+    for i in 0..sz.docs {
+        let depth = i % 5;
+        out.push(rand_doc(r, depth, &KEYS[..8]));
+    }
+    out
+}
+
+pub fn infer_ops(r: &mut Rng, sz: &Sizes, out: &mut Vec<String>, value_path: bool) {
+    for d in docs(r, sz) {
+        let style = r.below(4);
+        out.push(format!("inferdoc\t{}", hex_doc(&d, style)));
+        if value_path {
+            out.push(format!("inferv\t{}", hex_doc(&d, style)));
+        }
+    }
+}
+
+pub fn merger_ops(r: &mut Rng, sz: &Sizes, out: &mut Vec<String>) {
+    for (a, b) in pairs(r, sz) {
+        out.push(format!("merger\t{}\t{}", sx(&a), sx(&b)));
+    }
+}
+
+pub fn history_ops(r: &mut Rng, sz: &Sizes, out: &mut Vec<String>) {
+    for _ in 0..sz.histories {
+        let h = rand_history(r, &KEYS[..8]);
+        let mut line = "sourcesdoc".to_string();
+        for d in &h {
+            line.push('\t');
+            line.push_str(&hex_doc(d, r.below(4)));
+        }
+        out.push(line);
+    }
+}
+
+pub fn core(r: &mut Rng, sz: &Sizes, out: &mut Vec<String>) {
+    merger_ops(r, sz, out);
+    infer_ops(r, sz, out, true);
+    history_ops(r, sz, out);
+    let p = pool(r, sz.shapes);
+    for s in &p {
+        out.push(format!("display\t{}", sx(s)));
+    }
+    for _ in 0..sz.pairs {
+        let a = r.pick(&p).clone();
+        let b = near(r, &a, &p);
+        out.push(format!("cmp\t{}\t{}", sx(&a), sx(&b)));
+    }
+}
+
+/// C01: every prefix of random histories, consecutive so that monotonicity can be checked.
+pub fn c01(r: &mut Rng, sz: &Sizes, out: &mut Vec<String>) {
+    merger_ops(r, sz, out);
+    infer_ops(r, sz, out, false);
+    for _ in 0..sz.histories {
+        let h = rand_history(r, &KEYS[..8]);
+        let hexes: Vec<String> = h.iter().map(|d| hex_doc(d, r.below(4))).collect();
+        for n in 1..=hexes.len() {
+            out.push(format!("sourcesdoc\t{}\t!ok *", hexes[..n].join("\t")));
+        }
+        // a permutation with a repetition
+        if hexes.len() > 1 {
+            let mut p = hexes.clone();
+            p.reverse();
+            p.push(hexes[0].clone());
+            out.push(format!("sourcesdoc\t{}\t!ok *", p.join("\t")));
+        }
+    }
+}
+
 pub fn generate(prop: &str, tier: &str, seed: u64) -> Vec<String> {
     let mut r = Rng(seed ^ 0x5eed_0000 ^ (prop.bytes().fold(0u64, |a, b| a * 131 + b as u64)));
     let sz = sizes(tier);
     let mut out = Vec::new();
     match prop {
         "C10" => c10(&mut r, &sz, &mut out),
+        "C01" => c01(&mut r, &sz, &mut out),
         "C02" => c02(&mut r, &sz, &mut out),
+        "core" => core(&mut r, &sz, &mut out),
         _ => {}
     }
     out
